@@ -1069,10 +1069,8 @@ Proof.
   now rewrite (proj2 (has_view_false_iff e t r (norm h) Ft) Hn).
 Qed.
 
-Lemma server_unknown e t chosen x :
-  has_view e t (norm chosen) = false ->
-  server_respond e false t None chosen x = SPanic /\
-  server_respond e true t None chosen x = SResp (Some "") (VList VLNil).
+Lemma server_unknown e c t chosen x :
+  has_view e t (norm chosen) = false -> server_respond e c t None chosen x = SFault.
 Proof. intros H. unfold server_respond. now rewrite H. Qed.
 
 Lemma fixed_view_server e c t f chosen chosen' x h b :
